@@ -7,6 +7,35 @@ from p_delta import delta_cfg, DELTA_ACTIONS
 from vlib import Broken, Verdict, log, read_ndjson, write_ndjson, require_coverage
 
 
+def validate_rtok(w, obs, label):
+    tf = w.path("rtok-%s.ndjson" % label)
+    write_ndjson(tf, [{k: o[k] for k in ("id", "basis", "blk", "script", "out", "result", "temps")} for o in obs], clamp=True)
+    r = w.tlc("RecvDeltaTrace", "SPECIFICATION TSpec\nCHECK_DEADLOCK TRUE\n", env={"VERIF_TRACE": tf}, label="RecvDeltaTrace-" + label, timeout=3000)
+    if not r["completed"]:
+        raise Broken("receiver-script validation did not complete: " + r["out"][-3000:])
+    return r, set(i for i, _ in r["rejects"])
+
+
+def run_rtok(w, lines, label):
+    sf, of = w.path("rtokscen-%s.ndjson" % label), w.path("rtokobs-%s.ndjson" % label)
+    write_ndjson(sf, lines)
+    w.run_harness("rtok", sf, of, case_timeout=60)
+    obs = []
+    for o in read_ndjson(of):
+        if "out" not in o:      # crashed / hung / harness error
+            scn = o.get("scn") or {}
+            if o.get("harness_error"):
+                raise Broken("rtok harness error: %s" % o.get("harness_error"))
+            o = {"id": scn.get("id", -1), "basis": scn.get("basis", []), "blk": scn.get("blk", 1), "script": scn.get("script", []), "recv": scn.get("recv", ""),
+                 "result": "crashed" if o.get("crashed") else "hung", "err": (o.get("stderr") or "")[-800:], "out": [-3], "temps": 0}
+        obs.append(o)
+    if len(obs) != len(lines):
+        raise Broken("rtok: %d observations for %d scenarios" % (len(obs), len(lines)))
+    r, rej = validate_rtok(w, obs, label)
+    run_rtok.traces = getattr(run_rtok, "traces", 0) + len(obs)
+    return obs, rej
+
+
 def check(w):
     tier, seed = w.tier, w.seed
     v = Verdict(w, "model_checking")
@@ -61,6 +90,48 @@ def check(w):
     sobs, srej, ssumm = p_delta.run_and_validate(w, big2, "bigsess", v, counts, session=4, first_id=100000)
     bobs, brej = bobs + sobs, set(brej) | set(srej)
     big = big + big2
+    # ---- 3b. receiver half (RecvDelta.tla): every valid token script within bounds - references in any order,
+    #          the short remainder block first or mid-file, repeated / unused blocks, literal runs anywhere - is
+    #          sent by the reference sender to the REAL receivers; TLC judges the file they wrote (RecvDeltaTrace)
+    RL, RT = (4, 3) if quick else (5, 4)
+    rd_cfg = ("CONSTANTS\n  MaxLen = %d\n  Blks = {1, 2}\n  MaxToks = %d\n  LitSyms = {50}\n" % (RL, RT))
+    rrd = w.tlc_ok("RecvDelta", "SPECIFICATION Spec\n" + rd_cfg + "INVARIANTS Faithful Accepts\nCHECK_DEADLOCK TRUE\n", coverage=True, label="RecvDelta-safety")
+    rcov = require_coverage(rrd, ["RcvLit", "RcvRef", "RcvEnd"])
+    states += rrd["distinct"]
+    transitions += rrd["generated"]
+    out = w.path("rdelta-scen.raw")
+    g = w.tlc_ok("RecvDelta", "SPECIFICATION GenSpec\n" + rd_cfg + "INVARIANT Emit\nCHECK_DEADLOCK FALSE\n", env={"VERIF_OUT": out}, workers=1, label="RecvDeltaGen")
+    scripts = read_ndjson(out)
+    if len(scripts) != g["distinct"] or len(scripts) < 100:
+        raise Broken("receiver script generation: %d lines for %d initial states" % (len(scripts), g["distinct"]))
+    rlines = []
+    for k, sc in enumerate(scripts):
+        rlines.append({"id": 500000 + k, "basis": sc["basis"], "blk": sc["blk"], "script": sc["script"], "recv": "client" if k % 2 == 0 else "daemon"})
+    robs, rrej = run_rtok(w, rlines, "rtok")
+    if rrej:
+        again = [ln for ln in rlines if ln["id"] in rrej]
+        robs2, rrej2 = run_rtok(w, again, "rtok-confirm")
+        if set(rrej) - set(rrej2):
+            raise Broken("receiver-script rejections not reproduced on re-run: %s" % sorted(set(rrej) - set(rrej2))[:10])
+        remfirst = {500000 + k for k, sc in enumerate(scripts) if sc["remfirst"]}
+        for o in robs2:
+            if o["id"] in rrej2:
+                v.violation({"kind": "receiver", "result": o["result"], "remainder_block_before_full_block": o["id"] in remfirst, "recv": o["recv"]},
+                            {"basis": o["basis"], "blk_symbols": o["blk"], "script": o["script"], "wrote_symbols": o["out"], "result": o["result"], "err": o["err"][:500],
+                             "temps": o["temps"], "note": "a symbol is 700/blk bytes; the real generator cut the basis into 700-byte blocks"})
+    # negative control for the receiver half: a wrong written file must be rejected
+    rgood = [o for o in robs if o["id"] not in rrej and len(o["out"]) >= 2]
+    if len(rgood) < 10:
+        raise Broken("too few accepted receiver-script runs (%d)" % len(rgood))
+    rbad = []
+    for o in random.Random(seed).sample(rgood, 10):
+        c = json.loads(json.dumps(o))
+        c["id"] += 1000000
+        c["out"] = c["out"][1:] + c["out"][:1] if len(set(c["out"])) > 1 else c["out"] + [c["out"][0]]
+        rbad.append(c)
+    _, nrr = validate_rtok(w, rbad, "rtok-negctl")
+    if {c["id"] for c in rbad} - nrr:
+        raise Broken("negative control: wrong receiver output accepted by RecvDeltaTrace")
     # ---- 4. negative controls: corrupted traces must be rejected, intact ones accepted
     rnd = random.Random(seed)
     good = [o for o in obs if o["id"] not in rej and o["toks"]] + [o for o in bobs if o["id"] not in brej and o["toks"]]
@@ -85,13 +156,16 @@ def check(w):
                         "ended": o["ended"], "sumok": o["sumok"], "err": o["err"][:200]})
     v.coverage = {
         "states": states, "transitions": transitions,
-        "traces_validated_against_impl": counts["traces"],
+        "traces_validated_against_impl": counts["traces"] + len(robs),
         "trace_states": counts["trace_states"],
         "samples": samples,
         "exhaustive": True,
         "design_constants": {"alphabet": "-1..1", "MaxLen": L, "MaxBlk": B, "s2": [0, 16]},
         "replayed_scenarios": {"tlc_enumerated": len(scen), "constants": [{"MaxLen": a, "MaxBlk": b, "s2": c} for a, b, c in gens], "tlc_collision_pool": ncoll, "concrete_domain": len(big), "of_which_in_multi_file_sessions": len(big2)},
         "action_coverage": cov,
+        "receiver_scripts": {"module": "RecvDelta.tla", "constants": {"MaxLen": RL, "Blks": [1, 2], "MaxToks": RT}, "scripts": len(scripts),
+                             "remainder_block_before_full_block": sum(1 for sc in scripts if sc["remfirst"]), "action_coverage": rcov,
+                             "sample": scripts[len(scripts) // 2]},
         "liveness_states": rl["distinct"],
         "distinct_nontrivial": nontrivial,
         "evaluations": len(scen) + len(big),
